@@ -106,6 +106,7 @@ type c09Ctx struct {
 	sanitized map[*ssa.Function]bool // functions whose limit-item inputs are sanitized server data
 	reserveOK bool
 	globalsOK map[*ssa.Global]bool
+	up        int // helper levels crossed by the current trustedLeaf query
 }
 
 // trustedLeaf reports whether v is known non-negative without looking at guards: an unsigned
@@ -126,15 +127,46 @@ func (x *c09Ctx) trustedLeaf(v ssa.Value, in *ssa.Function) bool {
 			return x.trustedGlobal(g)
 		}
 	}
+	// a parameter of an extracted helper: trusted when the argument bound to it is proven
+	// non-negative at every call site of the helper
+	if p, ok := v.(*ssa.Parameter); ok && x.up < eng.LiftDepth {
+		if ups := x.c.W.UpArgSites(p); len(ups) > 0 {
+			x.up++
+			defer func() { x.up-- }()
+			for _, u := range ups {
+				if good, _ := x.nonNeg(u.Arg, u.Site.Parent()); !good {
+					return false
+				}
+			}
+			return true
+		}
+	}
 	switch c09LeafField(v) {
 	case "Max", "QPS", "Burst":
-		ts := c09PathTypes(v)
-		if c09HasType(ts, pkgV1alpha1+".FlowControlSchema", pkgV1alpha1+".FlowControlSchemaConfiguration") {
-			return true // validated local configuration (C16.R5)
+		// the access path may start at a parameter of a helper that receives a member of the
+		// configuration (or of the item): it is continued into every call site, all must agree
+		ups := x.c.W.AccessPathsUp(v)
+		if len(ups) == 0 {
+			return false
 		}
-		if c09HasType(ts, tLimitItem, pkgV1alpha1+".LimitItemDetail") {
-			return x.sanitized[in]
+		for _, up := range ups {
+			var ts []string
+			for _, h := range up.Hops {
+				ts = append(ts, c09PathTypes(h)...)
+			}
+			where := in
+			if len(up.Hops) > 1 && up.Fn != nil {
+				where = up.Fn
+			}
+			switch {
+			case c09HasType(ts, pkgV1alpha1+".FlowControlSchema", pkgV1alpha1+".FlowControlSchemaConfiguration"):
+				// validated local configuration (C16.R5)
+			case c09HasType(ts, tLimitItem, pkgV1alpha1+".LimitItemDetail") && x.sanitizedFn(where, eng.LiftDepth):
+			default:
+				return false
+			}
 		}
+		return true
 	case "reserve":
 		ts := c09PathTypes(v)
 		return x.reserveOK && c09HasType(ts, tMaxInflightW, tTokenBucketW)
@@ -143,6 +175,30 @@ func (x *c09Ctx) trustedLeaf(v ssa.Value, in *ssa.Function) bool {
 		return c09HasType(c09PathTypes(v), tMaxInflightW)
 	}
 	return false
+}
+
+// sanitizedFn: the limit-item inputs of fn are sanitized server data — established for fn
+// itself, or fn is a helper with a completely known set of callers all of which are.
+func (x *c09Ctx) sanitizedFn(fn *ssa.Function, depth int) bool {
+	if fn == nil {
+		return false
+	}
+	if x.sanitized[fn] {
+		return true
+	}
+	if depth <= 0 {
+		return false
+	}
+	sites := x.c.W.LiftSites(fn)
+	if len(sites) == 0 {
+		return false
+	}
+	for _, s := range sites {
+		if !x.sanitizedFn(s.Parent(), depth-1) {
+			return false
+		}
+	}
+	return true
 }
 
 // trustedGlobal: a package variable that is assigned only by the package initialiser with a
@@ -232,10 +288,11 @@ func (x *c09Ctx) resizeRecords() {
 		}
 		tn := pkgFCRemote + "." + r.typ
 		for _, f := range r.fields {
-			isStore := func(i ssa.Instruction) bool {
+			// a call of a helper that records the field on every path counts as the record
+			isStore := eng.LiftMust(func(i ssa.Instruction) bool {
 				st, ok := i.(*ssa.Store)
 				return ok && eng.FieldAddrOf(st.Addr, tn, f)
-			}
+			})
 			miss := eng.ReachFromEntry(fn, eng.PathQuery{Target: eng.IsExit, Avoid: isStore})
 			c.Check("R4", fn, r.typ+".Resize records "+f+" on every path", fn.Pos(), miss == nil,
 				"a limit change that arrives while the limiter server is unavailable must still be remembered: the size restored on recovery (and the clamps derived from it) would otherwise be the one from before the change — e.g. a global limit lowered during an outage is forgotten")
@@ -244,6 +301,13 @@ func (x *c09Ctx) resizeRecords() {
 }
 
 // ---- R1 -------------------------------------------------------------------------------
+
+// Tags carried by the abstract non-nil values that stand for the remote and the local limiter
+// (the interpreter copies abstract values through phis, interface changes, helper results).
+var (
+	c09TagRemote = constant.MakeString("remote limiter")
+	c09TagLocal  = constant.MakeString("local limiter")
+)
 
 func c09R1(c *eng.Ctx) {
 	ld := c.MustMethod(pkgFCRoot, "upstreamLimiter", "Load")
@@ -290,7 +354,9 @@ func c09R1(c *eng.Ctx) {
 	sl := c.Slicer()
 	for _, p := range pins {
 		p := p
-		in := &eng.Interp{W: c.W, Depth: 0}
+		// the decision may have been spread over helpers of Load: same-package static callees are
+		// interpreted too (their parameters alias the caller's cells, so the pins below still apply)
+		in := &eng.Interp{W: c.W, Depth: eng.LiftDepth, FollowCall: func(callee *ssa.Function) bool { return callee.Pkg == ld.Pkg }}
 		rn := ld.Params[0].Name() // receiver name: memory cells are "<receiver>.<field>"
 		in.PinPath = func(path string) (eng.AV, bool) {
 			switch path {
@@ -321,9 +387,9 @@ func c09R1(c *eng.Ctx) {
 				if p.fcNil {
 					return eng.AV{K: eng.NilV}, true
 				}
-				return eng.AV{K: eng.NonNilV}, true
+				return eng.AV{K: eng.NonNilV, C: c09TagRemote}, true
 			case eng.IsCall(cc, "("+tFCCache+").LocalFlowControl"):
-				return eng.AV{K: eng.NonNilV}, true
+				return eng.AV{K: eng.NonNilV, C: c09TagLocal}, true
 			}
 			return eng.AV{}, false
 		}
@@ -338,14 +404,22 @@ func c09R1(c *eng.Ctx) {
 				continue
 			}
 			res := eng.ReturnResults(ret)
-			fromRemote := sl.DerivesFrom(res[0], func(v ssa.Value) bool {
-				cc, _ := eng.CallResultOf(v)
-				return cc != nil && eng.IsCall(cc, "("+tFCCache+").FlowControl")
-			})
-			fromLocal := sl.DerivesFrom(res[0], func(v ssa.Value) bool {
-				cc, _ := eng.CallResultOf(v)
-				return cc != nil && eng.IsCall(cc, "("+tFCCache+").LocalFlowControl")
-			})
+			var fromRemote, fromLocal bool
+			if len(pr.Ret) > 0 && pr.Ret[0].K == eng.NonNilV && pr.Ret[0].C != nil && pr.Ret[0].C.Kind() == constant.String {
+				// the value returned on this very path is the (tagged) answer of one of the two getters
+				fromRemote = constant.Compare(pr.Ret[0].C, token.EQL, c09TagRemote)
+				fromLocal = constant.Compare(pr.Ret[0].C, token.EQL, c09TagLocal)
+			} else {
+				// not tracked by the interpreter: fall back to the static origin of the returned value
+				fromRemote = sl.DerivesFrom(res[0], func(v ssa.Value) bool {
+					cc, _ := eng.CallResultOf(v)
+					return cc != nil && eng.IsCall(cc, "("+tFCCache+").FlowControl")
+				})
+				fromLocal = sl.DerivesFrom(res[0], func(v ssa.Value) bool {
+					cc, _ := eng.CallResultOf(v)
+					return cc != nil && eng.IsCall(cc, "("+tFCCache+").LocalFlowControl")
+				})
+			}
 			if p.wantLocal && (fromRemote || !fromLocal) {
 				ok = false
 				detail = "a path returns something else than the locally sized limiter"
